@@ -134,35 +134,47 @@ type sched struct {
 
 func (s *sched) isFree() bool { s.mu.Lock(); defer s.mu.Unlock(); return s.free }
 
-func (s *sched) before(ev *sopx.Event) sopx.Action {
+// rec appends one call to the trace at the moment the call is let through (NOT when the writer parks in
+// front of it: a parked call is performed only when the schedule resumes the writer, possibly much later).
+// Under the gate only one writer runs at a time, so this is the order in which the calls take effect; calls
+// let through in free mode race and are marked.
+func (s *sched) rec(ev *sopx.Event) {
 	s.mu.Lock()
-	w := s.ws[ev.Txn]
-	free := s.free
-	if w != nil && w.inCommit && len(s.trace) < 4000 {
-		if free {
-			s.trace = append(s.trace, ev.Txn+" "+ev.Key()+" free") // order of call STARTS only: the calls themselves race
+	if len(s.trace) < 4000 {
+		if s.free {
+			s.trace = append(s.trace, ev.Txn+" "+ev.Key()+" free")
 		} else {
 			s.trace = append(s.trace, ev.Txn+" "+ev.Key())
 		}
 	}
 	s.mu.Unlock()
-	if w == nil || !w.inCommit || free {
+}
+
+func (s *sched) before(ev *sopx.Event) sopx.Action {
+	s.mu.Lock()
+	w := s.ws[ev.Txn]
+	free := s.free
+	s.mu.Unlock()
+	if w == nil || !w.inCommit {
+		return sopx.Proceed
+	}
+	if free {
+		s.rec(ev)
 		return sopx.Proceed
 	}
 	w.mu.Lock()
 	defer w.mu.Unlock()
-	if s.isFree() {
-		return sopx.Proceed
-	}
 	for {
+		if s.isFree() {
+			s.rec(ev)
+			return sopx.Proceed
+		}
 		select {
 		case w.parked <- ev:
 			<-w.resume
+			s.rec(ev)
 			return sopx.Proceed
 		case <-time.After(50 * time.Millisecond):
-			if s.isFree() {
-				return sopx.Proceed
-			}
 		}
 	}
 }
